@@ -22,7 +22,9 @@ RULE = (
     "and struct arrays), a field reached by a random walk through nested structs/struct-array elements, an assignment "
     "form (scalar set, whole-array set from list/tuple/bytes/range/ctypes array of any integer or float element type/another "
     "message's array, element, slice with drawn "
-    "start/stop/step) and a value from boundary sets, the full range, wrong Python types, wrong lengths, or a valid "
+    "start/stop/step; element and slice stores go through a fresh attribute access or through a bound view object obtained "
+    "earlier: outside any block, outside with a disable block entered and left in between, inside a disable block since left "
+    "normally / by ValueError / by a BaseException, or bound outside and used inside a real block) and a value from boundary sets, the full range, wrong Python types, wrong lengths, or a valid "
     "sequence with ONE bad element substituted at a drawn position (neighbours may be NaN/bool/extremes); 1-3 "
     "assignments per message, each checked against a domain model (accepted => in-domain, read-back equal, bytes "
     "outside the field untouched; raised => all bytes unchanged; out-of-domain => raised). An 11th campaign draws "
@@ -30,7 +32,8 @@ RULE = (
     "StopIteration), by a BaseException (KeyboardInterrupt, SystemExit, GeneratorExit, asyncio.CancelledError, a custom "
     "BaseException subclass) or entered in a generator that is suspended inside the block and then closed / dropped, and probes with an "
     "invalid assignment inside every block and after every exit. Non-trivial = an out-of-domain element at a "
-    "non-first position of a sequence, or an accepted boundary value, or a disable forest with a block left by "
+    "non-first position of a sequence, or an out-of-domain store through a view bound inside a since-left disable block, or an "
+    "accepted boundary value, or a disable forest with a block left by "
     "exception; distinct = (kind, element type, form, cause, position class, neighbour class, length class) / "
     "(kind, type, form, boundary classes) / forest signature."
 )
@@ -49,6 +52,8 @@ ASSUME = [
     "float32 domain = struct.pack('<f', v) does not raise OverflowError; read-back compared bit-exactly after that round trip "
     "(NaN reads back as any NaN)",
     "strings are compared up to the first NUL; stale bytes behind the NUL inside the field are allowed",
+    "a store executed INSIDE a real disable block through a view bound outside it: no document decides whether it is validated, "
+    "and the property only speaks about validation being on: such stores are executed but not judged",
     "while a generator is suspended inside a disable block nothing is probed in the caller (whether the caller is then 'inside' "
     "the block is decided by no document); after close()/garbage collection validation must be in force again",
     "disable-block probes use assignments that ctypes itself accepts silently (int8=200, byte=256, float32[]=[0,1e39,..], "
@@ -72,6 +77,38 @@ _BOUND = (V.ArrayField, V.StructArray)
 
 # ------------------------------------------------------------------------------------------------
 # executor + oracle (used by the Hypothesis wrapper and by replay)
+
+
+VIEW_ORIGINS = ["outside", "outside-then-block", "inside-normal", "inside-exc", "inside-base", "used-inside"]
+
+
+class _Leave(BaseException):
+    pass
+
+
+def _bind_view(cobj, name: str, origin: str):
+    """Obtain the bound array view `cobj.<name>` somewhere else than at the store itself."""
+    if origin in ("outside", "used-inside"):
+        return getattr(cobj, name)
+    if origin == "outside-then-block":
+        view = getattr(cobj, name)
+        with V.disable_message_validation():
+            pass
+        return view
+    if origin == "inside-normal":
+        with V.disable_message_validation():
+            view = getattr(cobj, name)
+        return view
+    marker = ValueError("verif") if origin == "inside-exc" else _Leave()
+    view = None
+    try:
+        with V.disable_message_validation():
+            view = getattr(cobj, name)
+            raise marker
+    except BaseException as e:
+        if e is not marker:
+            raise
+    return view
 
 
 def _targets(fi: FI, form: str, k):
@@ -250,16 +287,40 @@ def do_step(root: MessageBase, step: dict, group: str, res: Result, trace: dict)
     desc = (f"{ccls.__name__}.{fi.name} ({fi.tag}) form={form}" + (f" key={k}" if k is not None else "")
             + f" value={msgs.show(value)}")
     raised = None
+    origin = step.get("view") if form != "set" else None
+    if origin is not None and origin not in VIEW_ORIGINS:
+        raise HarnessError(f"unknown view origin {origin}")
+    key_ = k if form == "item" else slice(*k) if form == "slice" else None
     try:
         if form == "set":
             setattr(cobj, fi.name, value)
-        elif form == "item":
-            getattr(cobj, fi.name)[k] = value
+        elif origin is None:
+            getattr(cobj, fi.name)[key_] = value  # fresh attribute access
         else:
-            getattr(cobj, fi.name)[slice(*k)] = value
+            view = _bind_view(cobj, fi.name, origin)  # bound view object obtained earlier / elsewhere
+            if origin == "used-inside":
+                with V.disable_message_validation():
+                    view[key_] = value
+            else:
+                view[key_] = value
+    except HarnessError:
+        raise
     except Exception as e:  # any exception type counts as "refused"
         raised = e
+    finally:
+        if origin is not None:
+            V._VALIDATION_ENABLED.set(True)
     after = bytes(root)
+    if origin is not None:
+        res.count(f"{group}:view:{origin}:{j['verdict']}:{'refused' if raised is not None else 'accepted'}")
+        fc = fc + ("@view-bound-inside-left-block" if origin.startswith("inside") else "@view-bound-outside")
+        desc += f" through a view bound {origin}"
+    # one root-cause bucket for "a view bound inside a since-left disable block does not validate its stores"
+    skipkey = "array-view/bound-inside-left-disable-block/store-not-validated" if (origin or "").startswith("inside") else None
+    if origin == "used-inside":
+        # the store itself runs inside a real disable block: the property speaks about "validation on" only and no
+        # document decides whether such a store is validated (nor how unvalidated values are converted): executed, not judged
+        return
     verdict = j["verdict"]
     res.count(f"{group}:{fc}:{verdict}:{'refused' if raised is not None else 'accepted'}")
     if verdict == "out":
@@ -271,7 +332,7 @@ def do_step(root: MessageBase, step: dict, group: str, res: Result, trace: dict)
     ctx = "-next-to-nan" if (verdict == "out" and j["has_nan"]) else ""
     if raised is not None:
         if after != before:
-            raise Violation(f"{group}/{fc}/not-atomic", f"{desc}: raised {type(raised).__name__} but the message bytes changed", trace)
+            raise Violation(skipkey or f"{group}/{fc}/not-atomic", f"{desc}: raised {type(raised).__name__} but the message bytes changed", trace)
         if verdict == "in":
             raise Violation(f"{group}/{fc}/in-domain-refused",
                             f"{desc}: in-domain value refused with {type(raised).__name__}: {raised}", trace)
@@ -281,7 +342,7 @@ def do_step(root: MessageBase, step: dict, group: str, res: Result, trace: dict)
                 now = msgs.show(msgs.read_field(cobj, fi))
             except Exception as e:
                 now = f"<unreadable: {type(e).__name__}>"
-            raise Violation(f"{group}/{fc}/{j['cause']}{ctx}-accepted",
+            raise Violation(skipkey or f"{group}/{fc}/{j['cause']}{ctx}-accepted",
                             f"{desc}: out-of-domain ({j['cause']}"
                             + (f" at position {j['pos']}" if j["pos"] is not None else "") + f") accepted; field now reads {now}", trace)
         lo, hi = base + fi.off, base + fi.off + fi.size
@@ -296,6 +357,9 @@ def do_step(root: MessageBase, step: dict, group: str, res: Result, trace: dict)
                 raise Violation(f"{group}/{fc}/readback-mismatch",
                                 f"{desc}: accepted but reads back {msgs.show(read)}, expected {msgs.show(j['expected'])}", trace)
     # evidence
+    if origin is not None and origin.startswith("inside") and verdict == "out":
+        res.shape("view", fi.kind, fi.code, form, origin, j["cause"], bool(step["p"]))
+        res.count("nontrivial:out-of-domain-store-through-view-bound-inside-a-left-disable-block")
     if verdict == "out" and j["pos"] is not None:
         pc = _posclass(j["pos"], j["nt"])
         res.count(f"{group}:bad-position:{pc}")
@@ -318,8 +382,12 @@ def run_assign_case(trace: dict, res: Result):
     cls = msgs.resolve(trace["cls"])
     root = cls()
     res.count(f"{group}:class:{msgs.ref_class_kind(trace['cls'])}")
-    for step in trace["steps"]:
-        do_step(root, step, group, res, trace)
+    V._VALIDATION_ENABLED.set(True)
+    try:
+        for step in trace["steps"]:
+            do_step(root, step, group, res, trace)
+    finally:
+        V._VALIDATION_ENABLED.set(True)
 
 
 # -- disable blocks ---------------------------------------------------------------------------
@@ -627,6 +695,9 @@ def _seq_value(draw, ccls: type, fi: FI, L: int, whole: bool):
     return {tag: elems}
 
 
+_VIEW = st.sampled_from([None, None, None, None] + VIEW_ORIGINS + ["inside-normal", "inside-exc"])
+
+
 @st.composite
 def _step(draw, cls: type, kinds: frozenset, prefill: bool = False):
     path, fi, ccls = msgs.pick_target(draw, cls, kinds)
@@ -648,6 +719,8 @@ def _step(draw, cls: type, kinds: frozenset, prefill: bool = False):
         return step
     form = draw(st.sampled_from(["set", "set", "item", "slice", "slice"]))
     step["form"] = form
+    if form != "set":
+        step["view"] = draw(_VIEW)
     if form == "set":
         step["v"] = draw(_seq_value(ccls, fi, fi.n, True))
     elif form == "item":
